@@ -114,7 +114,7 @@ func init() {
 		"(*sync.Map).Delete":              unsupported("sync.Map"),
 		"(*sync.Map).Range":               unsupported("sync.Map"),
 		"(*sync.Cond).Wait":               unsupported("sync.Cond"),
-		"(*sync.Pool).Put":                func(fr *frame, a []value) value { return nil },
+		"(*sync.Pool).Put":                extPoolPut,
 		"sync/atomic.LoadInt32":           extAtomicLoad,
 		"sync/atomic.LoadInt64":           extAtomicLoad,
 		"sync/atomic.LoadUint32":          extAtomicLoad,
@@ -968,7 +968,29 @@ func extWaitGroupWait(fr *frame, a []value) value {
 	return nil
 }
 
+// sync.Pool: Get may return any object Put earlier, or a new one.  The model always
+// hands back the most recently Put object when there is one (the behaviour that
+// exposes state left in recycled objects; natively the same goroutine sees the same).
+func extPoolPut(fr *frame, a []value) value {
+	i := fr.i
+	p := a[0].(*value)
+	if x, ok := a[1].(iface); !ok || x.t == nil {
+		return nil
+	}
+	if i.pools == nil {
+		i.pools = map[*value][]value{}
+	}
+	i.pools[p] = append(i.pools[p], a[1])
+	return nil
+}
+
 func extPoolGet(fr *frame, a []value) value {
+	if p := a[0].(*value); len(fr.i.pools[p]) > 0 {
+		l := fr.i.pools[p]
+		x := l[len(l)-1]
+		fr.i.pools[p] = l[:len(l)-1]
+		return x
+	}
 	st := (*a[0].(*value)).(structure)
 	newFn := st[len(st)-1] // sync.Pool's last field is New func() any
 	switch f := newFn.(type) {
